@@ -129,7 +129,7 @@ func TestBIP340(t *testing.T) {
 	const test = "BIP340"
 	e := envK256
 	n := e.ref.N
-	vlib.Check(t, 600, func(t *rapid.T) {
+	vlib.Check(t, 500, func(t *rapid.T) {
 		d, keyClass := genScalar(t, "sk", n)
 		msg, msgClass := genMsg(t, "msg", true)
 		aux, auxClass := genAux(t)
@@ -139,7 +139,7 @@ func TestBIP340(t *testing.T) {
 
 		alt := rapid.SampledFrom([]string{
 			"msg", "rx+1", "rx-bit", "rx-random", "rx>=p", "rx-no-point", "rx-zero",
-			"s+1", "s-bit", "s-random", "s-neg", "s=n", "s>=n", "s-zero",
+			"s+1", "s-bit", "s-random", "s-neg", "s=n", "s>=n", "s-zero", "s-for-odd-R",
 			"pk-other", "pk>=p", "pk-no-point", "pk-zero",
 			"obj-R-neg", "obj-pk-neg", "obj-E-replaced", "obj-E-nil", "obj-forged-with-E", "obj-R-identity", "obj-s-zero",
 		}).Draw(t, "alt")
@@ -194,6 +194,24 @@ func TestBIP340(t *testing.T) {
 			set(asig[32:], alias)
 		case "s-zero":
 			set(asig[32:], new(big.Int))
+		case "s-for-odd-R":
+			// made with the secret key: s' = 2 e d - s gives [s']G - [e]P = -R, the right abscissa
+			// with an ODD ordinate; only the has_even_y(R) check rejects it (BIP vector 6 is of this kind)
+			ch := refcurve.BIP340Challenge(b.sigB[:32], b.pkBytes, msg)
+			dAdj := d
+			if e.ref.ScalarBaseMul(d).Y.Bit(0) == 1 {
+				dAdj = new(big.Int).Sub(n, d)
+			}
+			s2 := new(big.Int).Mul(ch, dAdj)
+			s2.Lsh(s2, 1).Sub(s2, s).Mod(s2, n)
+			if s2.Sign() == 0 {
+				t.Skip("degenerate")
+			}
+			minusR := e.ref.Sub(e.ref.ScalarBaseMul(s2), e.ref.ScalarMul(e.refPoint(t, bip340.LiftX(b.pk.Value())), ch))
+			if minusR.Inf || minusR.X.Cmp(rx) != 0 || minusR.Y.Bit(0) != 1 {
+				t.Fatalf("harness: s-for-odd-R construction is wrong")
+			}
+			set(asig[32:], s2)
 		case "pk-other":
 			d2 := drawnScalar(t, "sk'", n)
 			o, _ := refcurve.BIP340PubKey(be(d2, 32))
@@ -358,7 +376,7 @@ func TestBIP340Batch(t *testing.T) {
 	const test = "BIP340Batch"
 	e := envK256
 	n := e.ref.N
-	vlib.Check(t, 160, func(t *rapid.T) {
+	vlib.Check(t, 120, func(t *rapid.T) {
 		k := rapid.IntRange(1, 5).Draw(t, "n")
 		var sigs []*bip340.Signature
 		var pks []*bip340.PublicKey
